@@ -1,4 +1,7 @@
 // idhelper <file> <create|open> <tag> <clock> <threads:0|1> <history: letters of FBSATRPX>
+// idhelper <file> <forkcold|forkwarm> <tag> <clock> <same_file:0|1> <historyA,historyB[,historyC]>
+//   worker pool: this process (library loaded) forks one worker per history WITHOUT exec, one after the other; "forkwarm":
+//   the parent has itself created a file (ids) before forking, "forkcold": it has not called the library at all.
 // A separate process with a fresh id generator: opens/creates the file, creates one entity per history letter and prints
 // every id it caused to exist, one per line.  The process owns every clock the generator could be seeded from:
 // time(), gettimeofday() and clock_gettime() all answer <clock>.
@@ -10,6 +13,8 @@
 #include <thread>
 #include <sys/time.h>
 #include <time.h>
+#include <unistd.h>
+#include <sys/wait.h>
 #include "vf.hpp"
 
 static long g_clock = 0;
@@ -43,6 +48,35 @@ int main(int argc, char **argv) {
     vf::set_clock(g_clock);
     bool threads = atoi(argv[5]) != 0;
     std::string tag = argv[3], hist = argv[6];
+    if (strncmp(argv[2], "fork", 4) == 0) {
+        bool warm = strcmp(argv[2], "forkwarm") == 0, same = atoi(argv[5]) != 0;
+        std::vector<std::string> hs; { std::string h; for (char c : hist + ",") { if (c == ',') { hs.push_back(h); h.clear(); } else h += c; } }
+        std::string base = argv[1];
+        try {
+            if (warm) { File f = File::open(base + ".parent", FileMode::Overwrite); printf("%s\n", f.id().c_str()); printf("%s\n", f.createBlock("warm", "t").id().c_str()); f.close(); }
+            for (size_t w = 0; w < hs.size(); w++) {
+                fflush(stdout);
+                pid_t pid = fork();
+                if (pid == 0) {
+                    int rc = 0;
+                    try {
+                        std::string fn = same ? base : base + "." + std::to_string(w);
+                        bool create = same ? w == 0 : true;
+                        File f = File::open(fn, create ? FileMode::Overwrite : FileMode::ReadWrite);
+                        if (create) printf("%s\n", f.id().c_str());
+                        int k = 0;
+                        for (char c : hs[w]) one(f, c, tag + std::to_string(w), k++);
+                        f.close();
+                    } catch (const std::exception &e) { fprintf(stderr, "idhelper worker: %s\n", e.what()); rc = 4; }
+                    fflush(stdout);
+                    _exit(rc);
+                }
+                int st = 0; waitpid(pid, &st, 0);
+                if (!WIFEXITED(st) || WEXITSTATUS(st) != 0) return 5;
+            }
+        } catch (const std::exception &e) { fprintf(stderr, "idhelper: %s\n", e.what()); return 4; }
+        return 0;
+    }
     try {
         bool create = strcmp(argv[2], "create") == 0;
         File f = File::open(argv[1], create ? FileMode::Overwrite : FileMode::ReadWrite);
